@@ -331,6 +331,14 @@ class HybridRun:
                             block=name)
                 if explained:
                     ctx.hit("stale_cache_window")
+                    # the block's kernel ran on cached evaluations that do not belong to (current point, current conditional):
+                    # that is also what C02 (accept/reject kernels) and C08 (NUTS) state about the cache, inside an orchestrator
+                    if kind in ("MH", "CWMH", "MALA", "PCN"):
+                        ctx.violate("C02", "stale_cache_inside_gibbs", {"engine": "gibbs", "iface": "hybrid", "kind": kind},
+                                    block=name)
+                    elif kind == "NUTS":
+                        ctx.violate("C08", "cache_coherence", {"engine": "gibbs", "iface": "hybrid",
+                                                               "history": "inside_hybrid_gibbs"}, block=name)
         finally:
             np.random.set_state(post_rng)
 
